@@ -27,12 +27,15 @@ type C08Case struct {
 	Stream  []byte     `json:"stream"`
 	Pieces  []string   `json:"pieces"` // how the generator built the stream (informational)
 	Cuts    []int      `json:"cuts"`
-	End     string     `json:"end"` // eof | err | park (channel layer only)
+	End     string     `json:"end"` // eof | err | eofdata (last bytes returned together with io.EOF) | park (channel layer only)
 	Channel bool       `json:"channel"`
 	Consume string     `json:"consume,omitempty"` // how the consumer reads a message: "" readall | copy | tobytes
 }
 
 func genC08(t *rapid.T) C08Case {
+	if rapid.IntRange(0, 9).Draw(t, "varlen") == 3 {
+		return genC08VarLen(t)
+	}
 	c := C08Case{Codec: genCodec(t, true)}
 	cd := &c.Codec
 	cd.Max = rapid.SampledFrom([]int{1, 2, 5, 8, 16, 17, 64, 255, 256, 257, 1024, 70000}).Draw(t, "max")
@@ -211,9 +214,109 @@ func genC08(t *rapid.T) C08Case {
 	if c.Channel {
 		c.End = rapid.SampledFrom([]string{"eof", "err", "park"}).Draw(t, "end")
 	} else {
-		c.End = rapid.SampledFrom([]string{"eof", "eof", "err"}).Draw(t, "end")
+		c.End = rapid.SampledFrom([]string{"eof", "eof", "err", "eofdata"}).Draw(t, "end")
 	}
 	return c
+}
+
+// genC08VarLen: the "maximum received length" decoder: arbitrary bytes, arbitrary read sizes around the maximum.
+func genC08VarLen(t *rapid.T) C08Case {
+	c := C08Case{Codec: wire.Codec{Kind: "varlen"}}
+	c.Codec.Max = rapid.SampledFrom([]int{1, 2, 7, 16, 100, 255, 1000, 1023, 1024, 1025, 3000, 4096}).Draw(t, "max")
+	n := rapid.SampledFrom([]int{0, 1, c.Codec.Max - 1, c.Codec.Max, c.Codec.Max + 1, 2*c.Codec.Max + 3, 5000}).Draw(t, "len")
+	if n < 0 {
+		n = 0
+	}
+	seed := rapid.IntRange(0, 255).Draw(t, "seed")
+	c.Stream = make([]byte, n)
+	for i := range c.Stream {
+		c.Stream[i] = byte(seed + i*7)
+	}
+	c.Pieces = []string{fmt.Sprintf("raw:%d", n)}
+	switch rapid.IntRange(0, 3).Draw(t, "cutk") {
+	case 0:
+		c.Cuts = nil // everything the source has in one read
+	case 1:
+		c.Cuts = []int{c.Codec.Max + rapid.IntRange(1, 2000).Draw(t, "over")}
+	default:
+		c.Cuts = rapid.SliceOfN(rapid.SampledFrom([]int{1, 2, 40, c.Codec.Max - 1, c.Codec.Max, c.Codec.Max + 1, 2 * c.Codec.Max, 1024, 2048}), 1, 8).Draw(t, "cuts")
+		for i := range c.Cuts {
+			if c.Cuts[i] < 1 {
+				c.Cuts[i] = 1
+			}
+		}
+	}
+	c.End = rapid.SampledFrom([]string{"eof", "err", "eofdata"}).Draw(t, "end")
+	return c
+}
+
+// runC08VarLen: every delivered frame holds at most Max bytes, and the frames are exactly the bytes of the
+// stream in order (nothing invented, nothing beyond what was read); the end of the stream is raised, never delivered.
+func runC08VarLen(c C08Case, dec netty.InboundHandler, cls *core.ClassSet) (out core.Outcome) {
+	cd := c.Codec
+	fr := &wire.Fragmenter{Data: c.Stream, Cuts: c.Cuts, End: c.End}
+	pos := 0
+	for call := 0; call < len(c.Stream)+3; call++ {
+		pulledBefore, endBefore := fr.Pulled, fr.EndHits
+		var deliveries [][]byte
+		ctx := &mock.Ctx{OnRead: func(m netty.Message) {
+			d := consumeMessage(m)
+			deliveries = append(deliveries, d.data)
+		}}
+		pv := mock.Catch(func() { dec.HandleRead(ctx, fr) })
+		if re, ok := pv.(runtime.Error); ok {
+			out.Violation = core.Viol("C08/runtime-fault:varlen", "decoder failed with a runtime error: %v", re)
+			return
+		}
+		pulled := fr.Pulled - pulledBefore
+		if pulled > cd.Max {
+			cls.Add("varlen:read-larger-than-max")
+			out.Violation = core.Viol("C08/unbounded-read:varlen", "decoder took %d bytes from the source in one go; the configured maximum is %d", pulled, cd.Max)
+			return
+		}
+		if len(deliveries) > 1 {
+			out.Violation = core.Viol("C08/multiple-deliveries:varlen", "%d messages delivered by one HandleRead", len(deliveries))
+			return
+		}
+		if len(deliveries) == 1 {
+			d := deliveries[0]
+			switch {
+			case len(d) > cd.Max:
+				out.Violation = core.Viol("C08/oversized-frame-delivered:varlen", "a frame of %d bytes was delivered, the configured maximum is %d", len(d), cd.Max)
+				return
+			case len(d) == 0 && fr.EndHits > endBefore:
+				out.Violation = core.Viol("C08/end-of-stream-delivered:varlen", "an empty message was delivered for the end of the stream")
+				return
+			case len(d) != pulled || !bytes.Equal(d, c.Stream[pos:pos+pulled]):
+				out.Violation = core.Viol("C08/wrong-frame-delivered:varlen", "delivered %d bytes (% x...) but this call took %d bytes (% x...) from the source at offset %d", len(d), d[:imin(8, len(d))], pulled, c.Stream[pos:pos+imin(8, pulled)], pos)
+				return
+			}
+			if len(d) == cd.Max {
+				cls.Add("frame-at-max")
+				out.NonTrivial = true
+			}
+			pos += pulled
+			cls.Add("delivered-ok")
+			if pv != nil {
+				return
+			}
+			continue
+		}
+		if pv != nil {
+			cls.Add("raised:end")
+			if pulled > 0 {
+				cls.Add("varlen:data-with-error-dropped")
+			}
+			return
+		}
+		if pulled == 0 {
+			out.Violation = core.Viol("C08/no-progress:varlen", "HandleRead returned without consuming input, delivering or raising (pos %d of %d)", pos, len(c.Stream))
+			return
+		}
+		cls.Add("silent-consume")
+		return
+	}
+	return
 }
 
 type c08Consumed struct {
@@ -280,6 +383,22 @@ func runC08(c C08Case) (out core.Outcome) {
 	var dec netty.InboundHandler
 	if p := mock.Catch(func() { dec, _ = cd.Build() }); p != nil {
 		return core.Outcome{Inconclusive: fmt.Sprintf("bad case: constructor rejected configuration: %v", p)}
+	}
+	if cd.Kind == "varlen" {
+		cls.Add("end:%s", c.End)
+		for _, k := range c.Cuts {
+			if k > cd.Max {
+				cls.Add("varlen:source-offers-more-than-max")
+				out.NonTrivial = true
+			}
+		}
+		if len(c.Cuts) == 0 && len(c.Stream) > cd.Max {
+			cls.Add("varlen:source-offers-more-than-max")
+			out.NonTrivial = true
+		}
+		o := runC08VarLen(c, dec, cls)
+		o.NonTrivial = o.NonTrivial || out.NonTrivial
+		return o
 	}
 	// classify the stream with the reference decoder
 	{
